@@ -790,7 +790,7 @@ def guarded_statements_lc(body, env=None, base=("T",)):
     the statements in its body (it holds at body entry; callers accept that a body may invalidate it)."""
     LOOP_CONDS[0] = True
     try:
-        yield from list(_gs(body, env, base, ()))
+        yield from [x for x in _gs(body, env, base, ()) if x[1] != ("F",)]
     finally:
         LOOP_CONDS[0] = False
 
@@ -832,8 +832,11 @@ def guarded_statements(body, env=None, base=("T",)):
     """Yield (stmt_or_expr_statement, guard formula, loop stack) for every *leaf* statement in
     structured order.  Guard = conjunction of enclosing if-conditions (with polarity) and the
     negations of earlier sibling `if (c) <always leaves>` statements.  Loops contribute their
-    node to the loop stack (conditions of loops are not added as guards)."""
-    yield from _gs(body, env, base, ())
+    node to the loop stack (conditions of loops are not added as guards).  Statements whose guard is contradictory
+    (a test repeated after it already made the function leave) are unreachable and not reported."""
+    for x in _gs(body, env, base, ()):
+        if x[1] != ("F",):
+            yield x
 
 
 def _gs(n, env, g, loops):
